@@ -174,50 +174,56 @@ theorem C03_leader_starts_with_own_log (s s' : PSys) (i : Nat) (cfg : Cfg) (q : 
 
 /-- in every reachable state a leader's log is the ghost log of its term, every entry of that log
 has a term in [1, term], and every list anywhere agrees with the ghost logs (prefix-from-leader) -/
-theorem C03_leader_log_is_ghost (c0 : Cfg) (hne : c0.incoming ≠ [] ∨ c0.outgoing ≠ []) (s : PSys)
-    (hr : ReachC c0 s) (i : Nat) (h : (s.nodes i).role = 2) :
+theorem C03_leader_log_is_ghost (s : PSys)
+    (hr : Reach s) (i : Nat) (h : (s.nodes i).role = 2) :
     (s.nodes i).log = s.llog (s.nodes i).term ∧
     ∀ e ∈ s.llog (s.nodes i).term, 1 ≤ e.term ∧ e.term ≤ (s.nodes i).term := by
-  have I := invL_reach c0 hne s hr
+  have I := invL_reachR s hr
   exact ⟨I.ll i h, fun e he => I.lterm _ e he⟩
 
-/-- **Leader Completeness** (quorum form): in every reachable state, if a deciding quorum has released
-(= durably covered) acknowledgements of term `t` up to index `k` and entry `k` of the log of the leader
-of `t` is of term `t`, then the ghost log of every elected later term `t'` agrees with it up to `k`. -/
-theorem C03_leader_completeness (c0 : Cfg) (hne : c0.incoming ≠ [] ∨ c0.outgoing ≠ []) (s : PSys)
-    (hr : ReachC c0 s) (t t' k : Nat) (hlt : t < t') (hel : ∃ j, (t', j) ∈ s.elected)
-    (hk : 0 < k) (hlen : k ≤ (s.llog t).length) (hterm : termAt (s.llog t) k = t)
-    (q : List Nat) (hq : c0.isQuorum q = true)
-    (hacks : ∀ v ∈ q, ∃ a ∈ s.acks, a.term = t ∧ a.frm = v ∧ k ≤ a.idx) :
-    (s.llog t').take k = (s.llog t).take k := by
-  have I := invAll_reach c0 hne s hr
-  exact lc_quorum_llog c0 hne s I.l I.a I.b I.c.c2 t k hk hlen hterm q hq hacks t' hlt hel
+/-- **Leader Completeness**: in every reachable state of every history (membership changes
+included), the ghost log of every elected term `t'` agrees, up to `p.2`, with the log of the leader of
+every earlier term `p.1` that committed index `p.2` — i.e. whose own-term entry there was
+acknowledged durably by a deciding quorum of the configuration it was acting under. -/
+theorem C03_leader_completeness (s : PSys) (hr : Reach s) (p : Nat × Nat) (hp : p ∈ s.cmts) (t' : Nat)
+    (hlt : p.1 < t') (hel : ∃ j, (t', j) ∈ s.elected) :
+    (s.llog t').take p.2 = (s.llog p.1).take p.2 := by
+  have I := invAll_reachR s hr
+  exact leader_complete_ghost I.b I.c p hp t' (Nat.le_of_lt hlt) hel
+
+/-- the evidence behind a recorded leader commit (what "committed" means here) -/
+theorem C03_commit_evidence (s : PSys) (hr : Reach s) (p : Nat × Nat) (hp : p ∈ s.cmts) :
+    0 < p.2 ∧ termAt (s.llog p.1) p.2 = p.1 ∧
+    ∃ cfg q, (p, cfg) ∈ s.ccfgs ∧ cfg.isQuorum q = true ∧
+      ∀ v ∈ q, ∃ a ∈ s.acks, a.term = p.1 ∧ a.frm = v ∧ p.2 ≤ a.idx := by
+  obtain ⟨h1, _, h3, _, h5⟩ := (invAll_reachR s hr).c.c3.cq p hp
+  exact ⟨h1, h3, h5⟩
 
 /-- a node in the leader role holds every prefix committed by a leader of a term not beyond its own -/
-theorem C03_leader_holds_committed (c0 : Cfg) (hne : c0.incoming ≠ [] ∨ c0.outgoing ≠ []) (s : PSys)
-    (hr : ReachC c0 s) (i : Nat) (hi : (s.nodes i).role = 2) (p : Nat × Nat) (hp : p ∈ s.cmts)
+theorem C03_leader_holds_committed (s : PSys)
+    (hr : Reach s) (i : Nat) (hi : (s.nodes i).role = 2) (p : Nat × Nat) (hp : p ∈ s.cmts)
     (ht : p.1 ≤ (s.nodes i).term) : (s.nodes i).log.take p.2 = (s.llog p.1).take p.2 := by
-  have I := invAll_reach c0 hne s hr
+  have I := invAll_reachR s hr
   exact leader_complete I.v I.l I.b I.c i hi p hp ht
 
 /-- ... and so does, already, the log it was elected with (a new leader never has to be "repaired") -/
-theorem C03_elected_with_committed (c0 : Cfg) (hne : c0.incoming ≠ [] ∨ c0.outgoing ≠ []) (s : PSys)
-    (hr : ReachC c0 s) (p : Nat × Nat) (hp : p ∈ s.cmts) (t : Nat) (ht : p.1 < t)
+theorem C03_elected_with_committed (s : PSys)
+    (hr : Reach s) (p : Nat × Nat) (hp : p ∈ s.cmts) (t : Nat) (ht : p.1 < t)
     (hel : ∃ j, (t, j) ∈ s.elected) : (s.elog t).take p.2 = (s.llog p.1).take p.2 :=
-  (invAll_reach c0 hne s hr).c.lc p hp t ht hel
+  (invAll_reachR s hr).c.lc p hp t ht hel
 
 /-- every entry reported committed by anybody (C01's `Committed`) is held by every node in the leader
 role of a term not before the committing leader's -/
-theorem C03_leader_holds_every_committed_entry (c0 : Cfg) (hne : c0.incoming ≠ [] ∨ c0.outgoing ≠ [])
-    (s : PSys) (hr : ReachC c0 s) (i : Nat) (hi : (s.nodes i).role = 2) (p : Nat × Nat) (hp : p ∈ s.cmts)
+theorem C03_leader_holds_every_committed_entry (s : PSys) (hr : Reach s) (i : Nat) (hi : (s.nodes i).role = 2) (p : Nat × Nat) (hp : p ∈ s.cmts)
     (ht : p.1 ≤ (s.nodes i).term) (k : Nat) (hk : 0 < k) (hkp : k ≤ p.2) :
     (s.nodes i).log[k - 1]? = (s.llog p.1)[k - 1]? :=
-  getElem?_of_take_eq (C03_leader_holds_committed c0 hne s hr i hi p hp ht) (by omega)
+  getElem?_of_take_eq (C03_leader_holds_committed s hr i hi p hp ht) (by omega)
 
-/-- the statement with the voter configuration changing along the history — not proved -/
-def C03_full_statement : Prop :=
-  ∀ (s : PSys), Reach s → ∀ i, (s.nodes i).role = 2 → ∀ p ∈ s.cmts, p.1 ≤ (s.nodes i).term →
-    (s.nodes i).log.take p.2 = (s.llog p.1).take p.2
+/-- the statement of the earlier rounds (`C03_full_statement`: the voter configuration changing along
+the history) is now a theorem -/
+theorem C03_full : ∀ (s : PSys), Reach s → ∀ i, (s.nodes i).role = 2 → ∀ p ∈ s.cmts,
+    p.1 ≤ (s.nodes i).term → (s.nodes i).log.take p.2 = (s.llog p.1).take p.2 :=
+  fun s hr i hi p hp ht => C03_leader_holds_committed s hr i hi p hp ht
 
 /-! ### non-vacuity -/
 
